@@ -498,14 +498,18 @@ impl TConv {
     pub fn new(m: &ast::Module) -> Self {
         let mut type_names = Vec::new();
         let mut unnamed_templates = Vec::new();
-        for rd in &m.root_definitions {
-            match rd {
-                ast::RootDefinition::Struct(s) => type_names.push(s.name.node.clone()),
-                ast::RootDefinition::Enum(e) => type_names.push(e.name.node.clone()),
-                ast::RootDefinition::Function(f) if unnamed_params(f) => unnamed_templates.push(f.name.node.clone()),
-                _ => {}
+        fn walk(defs: &[ast::RootDefinition], prefix: &str, type_names: &mut Vec<String>, unnamed_templates: &mut Vec<String>) {
+            for rd in defs {
+                match rd {
+                    ast::RootDefinition::Struct(s) => type_names.push(format!("{}{}", prefix, s.name.node)),
+                    ast::RootDefinition::Enum(e) => type_names.push(format!("{}{}", prefix, e.name.node)),
+                    ast::RootDefinition::Function(f) if unnamed_params(f) => unnamed_templates.push(format!("{}{}", prefix, f.name.node)),
+                    ast::RootDefinition::Namespace(n, inner) => walk(inner, &format!("{}{}::", prefix, n.node), type_names, unnamed_templates),
+                    _ => {}
+                }
             }
         }
+        walk(&m.root_definitions, "", &mut type_names, &mut unnamed_templates);
         TConv { type_names, unnamed_templates }
     }
 
@@ -756,10 +760,47 @@ impl TConv {
         node("fn", items)
     }
 
+    /// the module's definitions; the members of `namespace N { … }` are listed under their qualified names `N::x`, which
+    /// is how the exporter refers to them everywhere
     pub fn module(&self, m: &ast::Module) -> Vec<Sx> {
         let mut out = Vec::new();
-        for rd in &m.root_definitions {
+        self.definitions(&m.root_definitions, "", &mut out);
+        out
+    }
+
+    /// the function definition by its qualified name
+    pub fn find_function<'m>(&self, defs: &'m [ast::RootDefinition], prefix: &str, qualified: &str) -> Option<&'m ast::FunctionDefinition> {
+        for rd in defs {
             match rd {
+                ast::RootDefinition::Function(fd) if format!("{}{}", prefix, fd.name.node) == qualified => return Some(fd),
+                ast::RootDefinition::Namespace(n, inner) => {
+                    if let Some(f) = self.find_function(inner, &format!("{}{}::", prefix, n.node), qualified) {
+                        return Some(f);
+                    }
+                }
+                _ => {}
+            }
+        }
+        None
+    }
+
+    fn rename(item: Sx, prefix: &str) -> Sx {
+        match item {
+            Sx::L(mut v) if v.len() >= 2 && !prefix.is_empty() && matches!(v[0].atom(), "fn" | "struct" | "enum" | "global") => {
+                v[1] = a(&format!("{}{}", prefix, v[1].atom()));
+                Sx::L(v)
+            }
+            other => other,
+        }
+    }
+
+    fn definitions(&self, defs: &[ast::RootDefinition], prefix: &str, all: &mut Vec<Sx>) {
+        let mut out = Vec::new();
+        for rd in defs {
+            match rd {
+                ast::RootDefinition::Namespace(n, inner) => {
+                    self.definitions(inner, &format!("{}{}::", prefix, n.node), all);
+                }
                 ast::RootDefinition::Function(f) => out.push(self.func(f)),
                 ast::RootDefinition::Struct(s) => {
                     let mut v = vec![a(&s.name.node)];
@@ -819,6 +860,6 @@ impl TConv {
                 _ => out.push(unsup("RootDefinition")),
             }
         }
-        out
+        all.extend(out.into_iter().map(|i| Self::rename(i, prefix)));
     }
 }
